@@ -246,7 +246,7 @@ func mentionsField(p *Program, v ssa.Value, field string) bool {
 
 // headerGet matches v = X.Header().Get(name) / X.Header.Get(name) and returns the header owner and name.
 func headerGet(v ssa.Value) (owner ssa.Value, name string, ok bool) {
-	call, isCall := strip(v).(*ssa.Call)
+	call, isCall := strip(singleAssignment(v)).(*ssa.Call)
 	if !isCall || calleeName(&call.Call) != "(net/http.Header).Get" {
 		return nil, "", false
 	}
